@@ -291,7 +291,7 @@ func c07Run(c *core.Ctx) {
 	b.flush()
 
 	b = B("u{}")
-	for _, v := range []int{0, 0x7F, 0x80, 0x7FF, 0x800, 0xD7FF, 0xD800, 0xDBFF, 0xDC00, 0xDFFF, 0xE000, 0xFFFF, 0x10000, 0x10FFFF, 0x22, 0x27, 0x5C, 0x60, 0xA, 0xD, 0x2028, 0x2029, 0x41, 0x1F600} {
+	for _, v := range []int{0, 0x7F, 0x80, 0x7FF, 0x800, 0xD7FF, 0xD800, 0xDBFF, 0xDC00, 0xDFFF, 0xE000, 0xFFFF, 0x10000, 0x10FFFF, 0x1FFFF, 0x20000, 0x3FFFF, 0x40000, 0x7FFFF, 0x80000, 0xEFFFF, 0xF0000, 0xFFFFF, 0x100000, 0x10ABCD, 0x10FFFD, 0x10FFFE, 0x22, 0x27, 0x5C, 0x60, 0xA, 0xD, 0x2028, 0x2029, 0x41, 0x1F600} {
 		for w := 1; w <= 8; w++ {
 			for _, up := range []bool{false, true} {
 				h := hex(v, w, up)
@@ -444,7 +444,7 @@ func c07Run(c *core.Ctx) {
 		"9223372036854775807", "9223372036854775808", "18446744073709551615", "18446744073709551616", "100000000000000000000", "1e21", "0xffffffffffffffff", "0x10000000000000000", "0b1" + strings.Repeat("0", 64), "0o2000000000000000000000", "123456789012345678901234567890"} {
 		b.add(n + " .toString()")
 		b.add("(" + n + ").toString()")
-		b.add(n + " .constructor === Number")
+		b.add(n + " .constructor == Number")
 		b.add(n + "[\"toFixed\"](1)")
 		b.add("-" + n + " .toFixed(1)")
 		b.add("a == " + n + " .valueOf()")
@@ -500,7 +500,7 @@ func c07Replay(pl json.RawMessage) (string, []core.Violation) {
 func init() {
 	core.Register(&core.PropSpec{
 		ID: "C07", Level: "exploration",
-		Rule:     "string literals in both quote styles: every \\xHH, every \\uHHHH, \\u{...} for 24 boundary code points x 1..8 digits x case, every ASCII byte raw / backslash-escaped / embedded, line continuations, raw UTF-8 text, ALL pairs over a 45-fragment alphabet (thorough: 61) and all triples over 16 (thorough: 30); backtick strings: all sequences <= 3 (thorough 4) over 14 fragments incl. escaped backtick, raw LF, trailing spaces + LF, CRLF, ${a}; numbers: 0..1000, 64-bit boundaries, all fractions with <=3+3 digits over {0,1,5,9}, exponent shapes, every hex/binary/octal literal of <= 2-3 digits + 64-bit boundaries; each accepted literal's value (UTF-16 code units / String(v)) is compared between source and emitted code (compact, pretty, pretty+tabs without semicolons) on the reference engine. Literals the engine rejects are outside the domain; literals xjs rejects are counted (acceptance is C02's subject). non-trivial = accepted literal compared (every literal is distinct) Added families: every first character of a literal body after every operator (and after unary - ! - -); literals as object keys (28 keys x both quotes) and number literals as member-access objects; literal interplay (first literal with quote/comment characters or escapes at its end, second multi-line with trailing blanks, same line and different lines of one function body); long literals: 6 kinds (both quotes, raw, raw with line breaks, escapes, long fraction) x 23 lengths 2^8, 2^12, 2^16, 2^20 (each -2..+2), 100000, 1.5 MiB, 2 MiB+1, value observed through length, ends and marker positions; escape adjacency: every (backslash + printable byte, raw printable byte) pair and the reverse in both quote styles and in backtick strings.",
+		Rule:     "string literals in both quote styles: every \\xHH, every \\uHHHH, \\u{...} for 37 boundary code points (every power-of-two plane boundary up to U+10FFFF; the reference engine itself rejects U+10FFFF, which is counted as outside the domain) x 1..8 digits x case, every ASCII byte raw / backslash-escaped / embedded, line continuations, raw UTF-8 text, ALL pairs over a 45-fragment alphabet (thorough: 61) and all triples over 16 (thorough: 30); backtick strings: all sequences <= 3 (thorough 4) over 14 fragments incl. escaped backtick, raw LF, trailing spaces + LF, CRLF, ${a}; numbers: 0..1000, 64-bit boundaries, all fractions with <=3+3 digits over {0,1,5,9}, exponent shapes, every hex/binary/octal literal of <= 2-3 digits + 64-bit boundaries; each accepted literal's value (UTF-16 code units / String(v)) is compared between source and emitted code (compact, pretty, pretty+tabs without semicolons) on the reference engine. Literals the engine rejects are outside the domain; literals xjs rejects are counted (acceptance is C02's subject). non-trivial = accepted literal compared (every literal is distinct) Added families: every first character of a literal body after every operator (and after unary - ! - -); literals as object keys (28 keys x both quotes) and number literals as member-access objects; literal interplay (first literal with quote/comment characters or escapes at its end, second multi-line with trailing blanks, same line and different lines of one function body); long literals: 6 kinds (both quotes, raw, raw with line breaks, escapes, long fraction) x 23 lengths 2^8, 2^12, 2^16, 2^20 (each -2..+2), 100000, 1.5 MiB, 2 MiB+1, value observed through length, ends and marker positions; escape adjacency: every (backslash + printable byte, raw printable byte) pair and the reverse in both quote styles and in backtick strings.",
 		Assume:   []string{"goja evaluates literals per ECMAScript (both sides use it)"},
 		QuickSec: 300, ThorSec: 1800, Run: c07Run, Replay: c07Replay,
 		Evals: "literal_evaluations", Nontriv: "literals",
